@@ -6,6 +6,7 @@ CONSTANTS
   GlobClasses <- HistClasses
   MinReq = 3
   MaxReq = 3
+  AllowAlias = FALSE
   Emit = TRUE
 INVARIANTS Confined NeverHostile DistinctTargets ExactMatchesItself EmitScn
 CHECK_DEADLOCK FALSE
